@@ -467,12 +467,29 @@ def call_sites(facts, pred):
     return out
 
 
+def return_locals(body):
+    """The return place and the locals whose value is moved into it (`_0 = move _n`, as left behind by an inlined helper)."""
+    tg = {0}
+    changed = True
+    while changed:
+        changed = False
+        for b in body.live_blocks():
+            for st in b.stmts:
+                if st["k"] == "assign" and not st["place"]["p"] and st["place"]["l"] in tg and st["rv"]["k"] == "use":
+                    src = st["rv"]["op"].get("move") or st["rv"]["op"].get("copy")
+                    if src and not src["p"] and src["l"] not in tg and src["l"] > body.arg_count:
+                        tg.add(src["l"])
+                        changed = True
+    return tg
+
+
 def blocks_assigning_return(body, pred):
-    """Blocks that assign the return place with an aggregate satisfying pred(rv)."""
+    """Blocks that assign the return place (directly or through a local moved into it) with an aggregate satisfying pred(rv)."""
     out = []
+    tg = return_locals(body)
     for b in body.live_blocks():
         for st in b.stmts:
-            if st["k"] == "assign" and st["place"]["l"] == 0 and not st["place"]["p"]:
+            if st["k"] == "assign" and st["place"]["l"] in tg and not st["place"]["p"]:
                 if pred(st["rv"]):
                     out.append(b.idx)
     return out
@@ -546,6 +563,19 @@ def eq_const_edges(body, prov, pred, value):
     return edges, lines
 
 
+def scrutinee_place(body, sw):
+    """place_key of the enum value a discriminant switch tests (None when not found)."""
+    op = sw.term["discr"]
+    pl = op.get("move") or op.get("copy")
+    if pl is None or pl["p"]:
+        return None
+    for blk in [sw] + [b for b in body.live_blocks() if b is not sw]:
+        for st in reversed(blk.stmts):
+            if st["k"] == "assign" and st["place"]["l"] == pl["l"] and not st["place"]["p"] and st["rv"]["k"] == "discr":
+                return place_key(st["rv"]["place"])
+    return None
+
+
 def scrutinee_type(body, sw):
     """Type record of the enum a discriminant switch tests (None when the switch is not on a discriminant)."""
     op = sw.term["discr"]
@@ -585,4 +615,31 @@ def variant_edges(body, sw):
             out[v["name"]] = listed[v["discr"]]
         elif not ow_dead:
             out[v["name"]] = ow
+    return out
+
+
+FAIL_CHAIN = ("::ok", "::branch", "::map_err", "::ok_or", "::ok_or_else")   # failure-preserving adapters: Err/None stay Err/None/Break
+FAIL_VARIANTS = ("Err", "None", "Break")
+
+
+def through_adapters(t):
+    while t[0] == "call" and any((t[1] or "").endswith(c) for c in FAIL_CHAIN) and t[2]:
+        t = t[2][0]
+    return t
+
+
+def failure_edges(body, prov, pred):
+    """For the (dominating) discriminant switches on a value that is `pred` seen through failure-preserving adapters
+    (`x?`, x.ok(), x.ok_or(e), x.map_err(f)): [(switch block, scrutinee term, [targets of the Err/None/Break variants])]."""
+    from . import cfg
+    sws = [(b, through_adapters(t)) for b, t in discr_switches(body, prov, lambda t: pred(through_adapters(t)))]
+    dom = cfg.dominators(body)
+    out = []
+    places = {b.idx: scrutinee_place(body, b) for b, _ in sws}
+    for b, t in sws:
+        # drop elaboration re-tests the same place inside the arms: the dominating test decides
+        if any(o.idx != b.idx and o.idx in dom.get(b.idx, ()) and places[o.idx] == places[b.idx] for o, ot in sws):
+            continue
+        ve = variant_edges(body, b) or {}
+        out.append((b, t, [tg for name, tg in ve.items() if name in FAIL_VARIANTS]))
     return out
